@@ -133,6 +133,7 @@ func extra() {
 	t3()
 	t4()
 	t5()
+	t6()
 }
 
 // F7: per clone function of workflow/utils/clone/clone.go, the fields that are always copied (keys of
